@@ -22,12 +22,20 @@ _SCRATCH = {}
 _CURRENT = {'cookie': COOKIE}
 
 
-def rotate_cookie(secret):
+def rotate_cookie(secret, before=0, after=0):
     """the server replaces the secret stored under the same context and id
-    (what txdbus's own bus does between two exchanges)"""
+    (what txdbus's own bus does between two exchanges); `before` / `after`
+    cookies of other exchanges stand in the file ahead of / behind it"""
     d = scratch_keyring()
+
+    def other(i):
+        return b'%d 1700000%03d %s\n' % (
+            1000 + i, i % 1000, binascii.hexlify(hashlib.sha1(
+                b'other-%d' % i).digest() + b'pad4')[:48])
     with open(os.path.join(d, 'ctx'), 'wb') as f:
+        f.write(b''.join(other(i) for i in range(before)))
         f.write(b'41 1700000000 ' + secret + b'\n')
+        f.write(b''.join(other(5000 + i) for i in range(after)))
     _CURRENT['cookie'] = secret
 
 
@@ -51,6 +59,9 @@ CHALLENGE_STALE = binascii.hexlify(b'ctx 99 '
                                    + binascii.hexlify(b'server-chal'))
 CHALLENGE_NOCTX = binascii.hexlify(b'nofile 41 '
                                    + binascii.hexlify(b'server-chal'))
+
+BUSY = [1, 9, 10, 99, 100, 101, 115, 116, 117, 118, 119, 120, 121, 127,
+        128, 129, 255, 256, 257, 1000]
 
 LINES = [
     b'OK ' + fakes.GUID, b'OK', b'OK zz', b'REJECTED EXTERNAL ANONYMOUS',
@@ -536,6 +547,36 @@ def _task_live(task):
         finally:
             rotate_cookie(COOKIE)
         res.count('states')
+    # a busy server: the keyring holds the cookies of many other exchanges
+    # ahead of and behind the one this client is asked for
+    for before, after in [(b, a) for b in BUSY for a in (0, 3)] + \
+            [(0, a) for a in BUSY[3:]]:
+        try:
+            rotate_cookie(b'busy5ecret', before, after)
+            for unix in (False, True):
+                done, tr, viol, n = run_handshake(
+                    (b'DBUS_COOKIE_SHA1',), b'AGREE_UNIX_FD', False, unix)
+                res.count('transitions')
+                res.count('evaluations')
+                res.count('traces')
+                res.count('nontrivial')
+                res.count('states')
+                rep = {'part': 'live-busy', 'unix': unix,
+                       'before': before, 'after': after}
+                for sig, what in viol:
+                    res.violation(sig + '/busy-keyring', what, rep,
+                                  size=before + after)
+                if not done:
+                    res.violation(
+                        '%s/live/incomplete/busy-keyring/%s'
+                        % (PROP, 'unix' if unix else 'tcp'),
+                        'cookie-only server whose keyring file holds %d '
+                        'cookies ahead of and %d behind the one named in '
+                        'the challenge: the handshake did not complete: %r'
+                        % (before, after, tr[-5:]), rep,
+                        size=before + after)
+        finally:
+            rotate_cookie(COOKIE)
     # a server whose cookie challenge names an id the client's keyring does
     # not hold: the client must abandon the mechanism properly and complete
     # with the next one the server accepts
@@ -645,7 +686,9 @@ def run(ctx):
         'transcript of line-by-line delivery'
         % (len(LINES), 2 if ctx.quick else 3))
     ctx.assumptions = [
-        '$HOME points at a scratch directory holding .dbus-keyrings; '
+        '$HOME points at a scratch directory holding .dbus-keyrings (also '
+        'with 1..1000 cookies of other exchanges ahead of / behind the one '
+        'asked for); '
         'os.urandom is fixed in the checker process',
         'which of OK-without-GUID / bad GUID / unknown / empty / BEGIN / '
         'unsolicited AGREE_UNIX_FD is "outside the protocol" is fixed in '
@@ -675,6 +718,19 @@ def replay(data):
         res = _task_live(True)
         return [(s, v['what']) for s, v in res.violations.items()
                 if 'rotated' in s]
+    if data.get('part') == 'live-busy':
+        try:
+            rotate_cookie(b'busy5ecret', data['before'], data['after'])
+            done, tr, viol, _ = run_handshake(
+                (b'DBUS_COOKIE_SHA1',), b'AGREE_UNIX_FD', False,
+                data['unix'])
+        finally:
+            rotate_cookie(COOKIE)
+        out = list(viol)
+        if not done:
+            out.append(('%s/live/incomplete/busy-keyring' % PROP,
+                        repr(tr[-6:])))
+        return out
     if data.get('part') == 'live-stale':
         done, tr, viol, _ = run_handshake(
             (b'DBUS_COOKIE_SHA1', b'ANONYMOUS'), data['fd_answer'].encode(),
